@@ -17,7 +17,7 @@ EXPLANATION = (
     "graphs round-trip as well; content the format cannot express (R^n odometry, R^n->R^n landmark edges, SE(2) landmark "
     "edges with a non-identity offset) raises at export time."
 )
-BOUNDS = "SE(2) family and SE(3) family graphs (2 poses, 1 landmark, odometry + landmark edge, parameters, custom edge with to_g2o), programmatic graphs, 2 cycles"
+BOUNDS = "(values compared with copies taken BEFORE the export; parameter offsets need not be unit; other files loaded in between) SE(2) family and SE(3) family graphs (2 poses, 1 landmark, odometry + landmark edge, parameters, custom edge with to_g2o), programmatic graphs, 2 cycles"
 OUTSIDE = "the builtin float formatting/parsing itself (trusted: shortest-repr round trip), values beyond double range, rounding inside angle wrap / quaternion renormalisation"
 ASSUMPTIONS = ["float(format(x,'')) == x and int(format(i,'')) == i", "unit quaternions, SE(2) angles in [-pi,pi) in the loaded graph", "ids distinct"]
 
@@ -55,7 +55,39 @@ def same_graph(P, g, tag, A, B, strict_quat=True):
         P.check_eq("%s:chi2" % tag, A.calc_chi2(), B.calc_chi2(), tol=1e-10)
 
 
-def _roundtrip(names, with_custom):
+def value_snapshot(G):
+    """copies of every numeric field reachable from the graph (taken BEFORE an export)"""
+    import numpy
+
+    snap = {"v": [(v.id, type(v.pose), numpy.array(v.pose.to_array(), copy=True)) for v in G._vertices], "e": [], "p": {}}
+    for e in G._edges:
+        est = numpy.array(e.estimate.to_array(), copy=True) if hasattr(e.estimate, "to_array") else e.estimate
+        off = numpy.array(e.offset.to_array(), copy=True) if hasattr(e, "offset") else None
+        snap["e"].append((type(e), list(e.vertex_ids), est, numpy.array(e.information, copy=True), off, getattr(e, "offset_id", None)))
+    for key, prm in (G._g2o_params or {}).items():
+        snap["p"][key] = numpy.array(prm.value.to_array(), copy=True)
+    return snap
+
+
+def same_as_snapshot(P, tag, G, snap, tol=1e-13):
+    P.check("%s:counts" % tag, len(G._vertices) == len(snap["v"]) and len(G._edges) == len(snap["e"]) and len(G._g2o_params or {}) == len(snap["p"]))
+    for i, (v, (vid, t, arr)) in enumerate(zip(G._vertices, snap["v"])):
+        P.check("%s:v%d:id_type" % (tag, i), v.id == vid and type(v.pose) is t)
+        P.check_eq("%s:v%d:pose" % (tag, i), v.pose.to_array(), arr, tol=tol)
+    for i, (e, (t, ids_, est, info, off, oid)) in enumerate(zip(G._edges, snap["e"])):
+        P.check("%s:e%d:type_ids" % (tag, i), type(e) is t and len(e.vertex_ids) == len(ids_) and all(a == b for a, b in zip(e.vertex_ids, ids_)))
+        P.check_eq("%s:e%d:estimate" % (tag, i), e.estimate.to_array() if hasattr(e.estimate, "to_array") else e.estimate, est, tol=tol)
+        P.check_eq("%s:e%d:information" % (tag, i), e.information, info, tol=tol)
+        if off is not None:
+            P.check_eq("%s:e%d:offset" % (tag, i), e.offset.to_array(), off, tol=tol)
+            P.check("%s:e%d:offset_id" % (tag, i), e.offset_id == oid)
+    for key, arr in snap["p"].items():
+        P.check("%s:param_present" % tag, key in (G._g2o_params or {}))
+        if key in (G._g2o_params or {}):
+            P.check_eq("%s:param_value" % tag, G._g2o_params[key].value.to_array(), arr, tol=tol)
+
+
+def _roundtrip(names, with_custom, raw_param=False):
     def fn(P, g):
         fs = install_io(P, g)
         capture_logs(g)
@@ -63,6 +95,12 @@ def _roundtrip(names, with_custom):
         P.distinct(list(ids.values()))
         pid = P.int("pid")
         S = make_specs(P, g, ids, pid)
+        if raw_param and "PARAMS_SE3OFFSET" in names:
+            # parameter lines are loaded verbatim: the offset quaternion need not be unit
+            sp = S["PARAMS_SE3OFFSET"]
+            rawq = P.reals("rawq", 4)
+            sp.numbers = sp.numbers[:4] + rawq
+            sp.expect = sp.expect[:3] + (sp.expect[3][:3] + rawq,)
         lines = list(names) + (["EDGE_DIST"] if with_custom else [])
         fs.files["f0.g2o"] = "".join(S[nm].text(" ", "\n") for nm in lines)
         custom = [custom_edge_class(g, P)] if with_custom else None
@@ -70,7 +108,9 @@ def _roundtrip(names, with_custom):
         G0 = load("f0.g2o")
         order_v = [(v.id, type(v.pose)) for v in G0._vertices]
         order_e = [(type(e), list(e.vertex_ids)) for e in G0._edges]
+        snap0 = value_snapshot(G0)
         G0.to_g2o("f1.g2o")
+        same_as_snapshot(P, "exported_graph_unchanged", G0, snap0)
         # exporting does not reorder (or otherwise change) the graph being exported ...
         P.check("export_keeps_vertex_order", len(G0._vertices) == len(order_v) and all(v.id == i and type(v.pose) is t for v, (i, t) in zip(G0._vertices, order_v)))
         P.check("export_keeps_edge_order", len(G0._edges) == len(order_e) and all(type(e) is t and list(e.vertex_ids) == ids_ for e, (t, ids_) in zip(G0._edges, order_e)))
@@ -79,6 +119,7 @@ def _roundtrip(names, with_custom):
         P.check("reimport_vertex_order", len(G1._vertices) == len(order_v) and all(v.id == i and type(v.pose) is t for v, (i, t) in zip(G1._vertices, order_v)))
         P.check("reimport_edge_order", len(G1._edges) == len(order_e) and all(type(e) is t and all(a == b for a, b in zip(e.vertex_ids, ids_)) for e, (t, ids_) in zip(G1._edges, order_e)))
         same_graph(P, g, "cycle1", G1, G0)
+        same_as_snapshot(P, "cycle1_vs_before_export", G1, snap0)
         G1.to_g2o("f2.g2o")
         G2 = load("f2.g2o")
         same_graph(P, g, "cycle2", G2, G1)
@@ -87,6 +128,33 @@ def _roundtrip(names, with_custom):
         P.check("line_count", n_lines == len(lines))
 
     return fn
+
+
+def _interleaved_loads(P, g):
+    """load A, load another file B that defines the same parameter id differently, then export A: A's own parameters
+    (and offsets) must be written, and A must be unchanged by the second load"""
+    fs = install_io(P, g)
+    capture_logs(g)
+    ids = {k: P.int("id_" + k) for k in ("a2", "b2", "a3", "b3", "l2", "l3", "p2")}
+    P.distinct(list(ids.values()))
+    pid = P.int("pid")
+    S = make_specs(P, g, ids, pid)
+    fs.files["A.g2o"] = "".join(S[nm].text(" ", "\n") for nm in SE3_FILE)
+    other = P.reals("otherp", 3) + P.unit_quat("otherq")
+    from .iokit import num
+
+    fs.files["B.g2o"] = "PARAMS_SE3OFFSET " + " ".join(num(x) for x in [pid] + other) + "\n"
+    fs.files["C.g2o"] = "# nothing here\n"
+    A = g.Graph.from_g2o("A.g2o")
+    snapA = value_snapshot(A)
+    B = g.Graph.from_g2o("B.g2o")
+    same_as_snapshot(P, "A_after_loading_B", A, snapA)
+    C = g.Graph.from_g2o("C.g2o")
+    same_as_snapshot(P, "A_after_loading_C", A, snapA)
+    A.to_g2o("A2.g2o")
+    A2 = g.Graph.from_g2o("A2.g2o")
+    same_as_snapshot(P, "A_roundtrip_after_other_loads", A2, snapA)
+    P.check("B_has_its_own_parameter", len(B._g2o_params) == 1 and len(C._g2o_params or {}) == 0)
 
 
 def _programmatic(fam):
@@ -181,6 +249,8 @@ def cases(tier):
         Case("roundtrip-se2", _roundtrip(SE2_FILE, False), timeout=20, old_timeout=30, validate=v, feas_timeout_ms=1500, val_tol=1e-9),
         Case("roundtrip-se3", _roundtrip(SE3_FILE, False), timeout=20, old_timeout=30, validate=v, feas_timeout_ms=1500, val_tol=1e-9, shards=4),
         Case("roundtrip-se3-custom", _roundtrip(SE3_FILE, True), timeout=20, old_timeout=30, validate=v, feas_timeout_ms=1500, val_tol=1e-9, shards=4),
+        Case("roundtrip-se3-rawparam", _roundtrip(SE3_FILE, False, raw_param=True), timeout=20, old_timeout=30, validate=v, feas_timeout_ms=1500, val_tol=1e-9, shards=4),
+        Case("interleaved-loads", _interleaved_loads, timeout=20, old_timeout=30, validate=v, feas_timeout_ms=1500, val_tol=1e-9, shards=2),
         Case("programmatic-se2", _programmatic("SE2"), timeout=20, old_timeout=30, validate=v, feas_timeout_ms=1500, val_tol=1e-9),
         Case("programmatic-se3", _programmatic("SE3"), timeout=20, old_timeout=30, validate=v, feas_timeout_ms=1500, val_tol=1e-9, shards=2),
         Case("programmatic-se3-landmark", _programmatic_se3_landmark, timeout=10, validate=v, feas_timeout_ms=1500),
